@@ -78,7 +78,7 @@ impl Stats {
     /// # Ok::<(),error::CIError>(())
     /// ```
     pub fn ci(&self, confidence: Confidence, quantile: f64) -> CIResult<Interval<usize>> {
-        if quantile <= 0. || 1. <= quantile {
+        if !(0. < quantile && quantile < 1.) {
             return Err(error::CIError::InvalidQuantile(quantile));
         }
 
@@ -145,7 +145,7 @@ impl Stats {
             return Err(error::CIError::TooFewSamples(self.population));
         }
         #[allow(clippy::manual_range_contains)]
-        if quantile < 0. || 1. < quantile {
+        if !(0. <= quantile && quantile <= 1.) {
             return Err(error::CIError::InvalidQuantile(quantile));
         }
         let index = (quantile * self.population as f64).floor() as usize;
@@ -224,8 +224,6 @@ pub fn ci_sorted_unchecked<T>(
 where
     T: PartialOrd + Clone,
 {
-    assert!(quantile > 0. && quantile < 1.);
-
     ci_indices(confidence, sorted.len(), quantile).and_then(|indices| match indices.into() {
         (Some(lo), Some(hi)) => {
             Interval::new(sorted[lo].clone(), sorted[hi].clone()).map_err(|e| e.into())
